@@ -304,4 +304,57 @@ static int og_ball(OGraph *g, uint64_t h, int k, uint64_t *cells, int *dists, in
     }
     return qt;
 }
+
+// ---- cell geometry relative to its geometric neighbours (used by C08, C10, C11)
+typedef struct {
+    uint64_t h;
+    int res;
+    LatLng c;
+    CellBoundary cb;
+    int nn;
+    uint64_t nb[8];
+    CellBoundary nbb[8];
+    int match[8][10];  // match[k][i] = index in neighbour k's boundary coinciding with vertex i, or -1
+    double matchd[8][10];
+    int cnt[8], start[8];  // shared stretch with neighbour k: cnt vertices starting at start (cyclic, in this cell's order)
+    int topo[10];          // number of neighbours sharing vertex i
+    double maxshare;       // largest distance between matched vertices
+} CellGeom;
+// returns 0 ok, -1 if the boundary/neighbour pipeline misbehaves (oracle unavailable)
+static int cellgeom(uint64_t h, CellGeom *g, double tol) {
+    g->h = h;
+    g->res = spec_res(h);
+    g->maxshare = 0;
+    if (cellToLatLng(h, &g->c) || cellToBoundary(h, &g->cb) || g->cb.numVerts < 3 || g->cb.numVerts > 10) return -1;
+    g->nn = geo_nbrs(h, g->nb);
+    if (g->nn < 0) return -1;
+    int nv = g->cb.numVerts;
+    for (int i = 0; i < nv; i++) g->topo[i] = 0;
+    for (int k = 0; k < g->nn; k++) {
+        if (cellToBoundary(g->nb[k], &g->nbb[k]) || g->nbb[k].numVerts < 3 || g->nbb[k].numVerts > 10) return -1;
+        g->cnt[k] = 0;
+        g->start[k] = -1;
+        for (int i = 0; i < nv; i++) {
+            g->match[k][i] = -1;
+            double best = 1e9;
+            int bj = -1;
+            for (int j = 0; j < g->nbb[k].numVerts; j++) {
+                // cheap reject before the accurate distance
+                if (fabs(g->cb.verts[i].lat - g->nbb[k].verts[j].lat) > 1e-6) continue;
+                double d = adist(g->cb.verts[i], g->nbb[k].verts[j]);
+                if (d < best) best = d, bj = j;
+            }
+            g->matchd[k][i] = best;
+            if (bj >= 0 && best <= tol) {
+                g->match[k][i] = bj;
+                g->cnt[k]++;
+                g->topo[i]++;
+                if (best > g->maxshare) g->maxshare = best;
+            }
+        }
+        for (int i = 0; i < nv; i++)
+            if (g->match[k][i] >= 0 && g->match[k][(i + nv - 1) % nv] < 0) g->start[k] = i;
+    }
+    return 0;
+}
 #endif
